@@ -199,7 +199,7 @@ func runC11(c *Ctx) {
 						}
 					}
 					if avail {
-						if uc, _ := callOf(stripIntConv(f.Y)); uc != nil && uc.Call.StaticCallee() != nil && uc.Call.StaticCallee().Name() == "Uint16" {
+						if uc, _ := callOf(stripIntConv(w.resolveLoad(stripIntConv(f.Y)))); uc != nil && uc.Call.StaticCallee() != nil && uc.Call.StaticCallee().Name() == "Uint16" {
 							okLen = true
 						}
 					}
@@ -225,7 +225,7 @@ func runC11(c *Ctx) {
 			}
 			if sl, isS := st.Val.(*ssa.Slice); isS && sl.High != nil && sl.Low == nil {
 				isDeclared := func(v ssa.Value) bool {
-					uc, _ := callOf(stripIntConv(v))
+					uc, _ := callOf(stripIntConv(w.resolveLoad(stripIntConv(v))))
 					return uc != nil && uc.Call.StaticCallee() != nil && uc.Call.StaticCallee().Name() == "Uint16"
 				}
 				if isDeclared(sl.High) {
